@@ -15,6 +15,8 @@ Definition ahas {A} (k : Z) (l : list (Z * A)) : bool := existsb (fun kv => Z.eq
 Definition aset {A} (k : Z) (v : A) (l : list (Z * A)) : list (Z * A) :=
   if ahas k l then map (fun kv => if Z.eqb (fst kv) k then (k, v) else kv) l else l ++ [(k, v)].
 Definition adel {A} (k : Z) (l : list (Z * A)) : list (Z * A) := filter (fun kv => negb (Z.eqb (fst kv) k)) l.
+(* update of an entry that may be gone from the dictionary (the object lives on, the table no longer shows it) *)
+Definition aupd {A} (k : Z) (f : A -> A) (l : list (Z * A)) : list (Z * A) := map (fun kv => if Z.eqb (fst kv) k then (fst kv, f (snd kv)) else kv) l.
 (* list.remove(x): the first occurrence; nothing when absent (the code guards it or knows it is there) *)
 Fixpoint remove1 (x : Z) (l : list Z) : list Z :=
   match l with [] => [] | y :: t => if Z.eqb x y then t else y :: remove1 x t end.
@@ -41,8 +43,7 @@ Definition get_artifacts (m : mesh) : list Z :=
 (* del self.edges[e]: SmallEdge.__del__ takes the id off both ends *)
 Definition del_edge (m : mesh) (e : Z) : mesh :=
   let '(a, b, _) := aget (0, 0, false) e (medges m) in
-  let oe := aset a (remove1 e (aget [] a (ownE m))) (ownE m) in
-  let oe := aset b (remove1 e (aget [] b oe)) oe in
+  let oe := aupd b (remove1 e) (aupd a (remove1 e) (ownE m)) in
   mkM (vids m) oe (ownC m) (adel e (medges m)) (mcells m).
 (* SmallEdge.replace_vertex(v, new) *)
 Definition replace_end (v new : Z) (m : mesh) (e : Z) : mesh :=
@@ -112,3 +113,32 @@ Definition t3_hyps (m : mesh) (art : list Z) : bool :=
   forallb (fun v => memZ v (vids m)) art &&
   forallb (fun kc : Z * list Z => nodupb (snd kc)) (mcells m) &&
   forallb (fun v => forallb (fun kc : Z * list Z => negb (memZ v (snd kc)) || memZ (fst kc) (aget [] v (ownC m))) (mcells m)) art.
+
+(* ------------------------------------------------------------------ removal of isolated cells (skeleton.py:177-191): a cell all of whose vertices
+   belong to no other cell is dropped with its vertices and their mesh edges.  `for e in v.ownEdges: del self.edges[e]` runs over a list that
+   __del__ shortens under the iterator: [del_live] visits position 0, 1, 2, ... of the list as it is at each step. *)
+Fixpoint del_live (fuel i : nat) (m : mesh) (v : Z) : mesh :=
+  match fuel with
+  | O => m
+  | S f => match nth_error (aget [] v (ownE m)) i with
+           | None => m
+           | Some e => del_live f (S i) (del_edge m e) v
+           end
+  end.
+Definition remove_vertex (m : mesh) (v : Z) : mesh :=
+  if memZ v (vids m)
+  then let m := del_live (S (length (aget [] v (ownE m)))) 0 m v in
+       mkM (filter (fun k => negb (Z.eqb k v)) (vids m)) (adel v (ownE m)) (adel v (ownC m)) (medges m) (mcells m)
+  else m.
+Definition isolated (m : mesh) (cy : list Z) : bool := forallb (fun v => Nat.leb (length (aget [] v (ownC m))) 1) cy.
+Definition remove_isolated (m : mesh) : mesh :=
+  let '(m1, gone) :=
+    fold_left (fun (st : mesh * list Z) (kc : Z * list Z) =>
+                 let '(m, gone) := st in
+                 if isolated m (snd kc) then (fold_left remove_vertex (snd kc) m, gone ++ [fst kc]) else st)
+              (mcells m) (m, []) in
+  fold_left (fun m c => let cy := aget [] c (mcells m) in
+                        mkM (vids m) (ownE m) (fold_left (fun oc v => aupd v (remove1 c) oc) cy (ownC m)) (medges m) (adel c (mcells m)))
+            gone m1.
+(* everything create_lattice does after the inner-triangle pass *)
+Definition finish_lattice (m : mesh) : mesh := remove_isolated (clean_up m).
